@@ -544,7 +544,14 @@ class _ChainedRunnerIterator(Iterable[_ValueT]):
     if isinstance(state, _IteratorState):
       assert len(self._iterators) == 1, f'{len(self._iterators)=}'
       state = {it.name: state for it in self._iterators}
-    iterators = [it.from_state(state[it.name]) for it in self._iterators]
+    # Restoring a downstream iterator restores its upstream iterator as its
+    # data source: collect those instead of restoring a second, unused copy
+    # whose aggregation state would never advance.
+    last = self._iterators[-1]
+    iterators = [last.from_state(state[last.name])]
+    for _ in self._iterators[:-1]:
+      (upstream,) = iterators[0]._data_sources  # pylint: disable=protected-access
+      iterators.insert(0, upstream)
     return _ChainedRunnerIterator(
         iterators,
         with_result=self._with_result,
